@@ -633,6 +633,23 @@ func Go6[A, B, C, D, E, F any](f func(A, B, C, D, E, F), a A, b B, c C, d D, e E
 	spawn(func() { f(a, b, c, d, e, g) })
 }
 
+// RunAlone runs f (library calls made by the harness itself: fixture building,
+// per-run key construction) as the only harness task of a scheduled run on the
+// calling goroutine. Whatever goroutines the library starts meanwhile become
+// scheduler tasks like in any other run, and channels keep one meaning.
+func RunAlone(ns int, f func()) {
+	Setup(1, ns, nil, false, 0)
+	defer func() {
+		finishAlone()
+		WaitAll()
+		Stop()
+	}()
+	f()
+}
+
+//go:norace
+func finishAlone() { Finish(0) }
+
 // WaitAll lets the remaining library-started goroutines run until each has
 // finished or all of them wait for work that will not come in this run (a
 // parked worker pool). Called by the harness after its own tasks are done.
